@@ -669,6 +669,56 @@ func c18Run(c *Ctx, r gen.R, lc layoutCase, caseNo int64, tag string) {
 			}
 		}
 	}
+	// ---- what the application does with a decoded value stays with that value: the message is decoded (its date fields also
+	// as 'no date': zero bytes, or BCD digits that are no calendar date), the application writes through every pointer it was
+	// given, and the same bytes are decoded again into a fresh variable - field for field what they decoded to the first time
+	{
+		hasPtr := false
+		encX := append([]byte{}, enc...)
+		for _, f := range lc.fields {
+			if f.k.ptr {
+				hasPtr = true
+			}
+			if f.k.ref == rm.Date && r.Chance(0.6) {
+				copy(encX[f.offset:f.offset+4], [][]byte{{0, 0, 0, 0}, {0x20, 0x23, 0x02, 0x30}, {0x20, 0x00, 0x00, 0x00}, {0x00, 0x01, 0x01, 0x01}}[r.Pick(4)])
+			}
+		}
+		if hasPtr {
+			first := reflect.New(typ)
+			if safeUnmarshal(append([]byte{}, encX...), first.Interface()) == nil {
+				render := func(v reflect.Value) []string {
+					out := []string{}
+					for _, f := range lc.fields {
+						fv := fieldByName(v, f)
+						out = append(out, fmt.Sprintf("%s=%v(nil:%v)", f.name, c18Read(f.k, fv), f.k.ptr && fv.IsNil()))
+					}
+					return out
+				}
+				before := render(first.Elem())
+				// a variable that already holds pointers, decoded into as well (its pointers are the application's too)
+				reused := reflect.New(typ)
+				safeUnmarshal(append([]byte{}, enc...), reused.Interface())
+				safeUnmarshal(append([]byte{}, encX...), reused.Interface())
+				for _, v := range []reflect.Value{first.Elem(), reused.Elem()} {
+					for _, f := range lc.fields {
+						if fv := fieldByName(v, f); f.k.ptr && !fv.IsNil() {
+							if nv, _ := c18Value(r, f.k, f); nv.IsValid() && nv.Kind() == reflect.Ptr && !nv.IsNil() {
+								fv.Elem().Set(nv.Elem())
+							}
+						}
+					}
+				}
+				again := reflect.New(typ)
+				c.Res.Eval(1)
+				c.Res.Count("decodes-repeated-after-the-application-wrote-through-decoded-pointers", 1)
+				if err := safeUnmarshal(append([]byte{}, encX...), again.Interface()); err != nil {
+					c.Res.Violate("C18:decode-after-write-through-pointer", fmt.Sprintf("layout [%s]: bytes that decoded before are rejected after the application wrote through the pointers of the decoded value: %v", lc, err), w(map[string]any{"bytes": wk.Hex(encX)}), caseNo)
+				} else if after := render(again.Elem()); strings.Join(after, " ") != strings.Join(before, " ") {
+					c.Res.Violate("C18:decode-after-write-through-pointer", fmt.Sprintf("layout [%s]: the same bytes decode to {%s} after the application wrote through the pointers of an earlier decoded value; before: {%s}", lc, strings.Join(after, " "), strings.Join(before, " ")), w(map[string]any{"bytes": wk.Hex(encX)}), caseNo)
+				}
+			}
+		}
+	}
 	if caseNo%2503 == 0 {
 		c.Res.Sample(map[string]any{"layout": lc.String(), "bytes": wk.Hex(enc)})
 	}
